@@ -3187,7 +3187,7 @@ class Constructs(mixin.Container, core.Constructs):
             if filter_applied is None:
                 filter_applied = {"filter_by_type": types}
 
-            out._prefiltered = self.shallow_copy()
+            out._prefiltered = arg.shallow_copy()
             out._filters_applied = arg.filters_applied() + (filter_applied,)
 
         return out
